@@ -75,4 +75,17 @@ theorem extendLoop_spec (h : Heap) (n self : Nat) (c : Nat)
     · simp [hi]
 
 
+theorem insertGpu_length (g : Cuda) (l : List Cuda) : (insertGpu g l).length = l.length + 1 := by
+  induction l with
+  | nil => simp [insertGpu]
+  | cons x xs ih => simp only [insertGpu]; split <;> simp [ih]
+
+theorem sortGpus_length (l : List Cuda) : (sortGpus l).length = l.length := by
+  unfold sortGpus
+  have : ∀ (acc : List Cuda), (l.foldl (fun acc g => insertGpu g acc) acc).length = acc.length + l.length := by
+    induction l with
+    | nil => simp
+    | cons x xs ih => intro acc; simp [List.foldl_cons, ih, insertGpu_length]; omega
+  simpa using this []
+
 end XpmVerif.Specs
